@@ -1,7 +1,7 @@
 (* Proofs about the hall-of-fame model (property C08): list surgery, bisect_right, the
    invariant of HallOfFame.update and the "k best distinct individuals" characterisation. *)
 From Coq Require Import List Bool Arith ZArith Lia Permutation Sorted.
-From GolemV Require Import Fitness.Fitness Archive.Hof.
+From GolemV Require Import Fitness.Fitness Fitness.FitnessProofs Archive.Hof Archive.FitOrder.
 Import ListNotations.
 
 (* ====================== list surgery: insert_at / del_at ====================== *)
@@ -416,3 +416,475 @@ Section ContainerProofs.
     apply ssorted_rev in S. rewrite rev_involutive in S. apply ssorted_map in S. exact S.
   Qed.
 End ContainerProofs.
+
+(* ====================== HallOfFame.update ====================== *)
+Section HofInvariant.
+  Variables K I : Type.
+  Variable key : I -> K.
+  Variables worse better : K -> K -> bool.
+  Variable uidf : I -> nat.
+  Variable UK : K -> Prop.
+  Hypothesis worse_better : forall a b, UK a -> UK b -> worse a b = better b a.
+  Hypothesis better_irrefl : forall a, UK a -> better a a = false.
+  Hypothesis better_trans : forall a b c, UK a -> UK b -> UK c ->
+    better a b = true -> better b c = true -> better a c = true.
+  Hypothesis better_negtrans : forall a b c, UK a -> UK b -> UK c ->
+    better a b = false -> better b c = false -> better a c = false.
+  Variable k : nat.
+  Hypothesis kpos : 1 <= k.
+
+  Definition similar (a b : I) : bool := uidf a =? uidf b.
+
+  Notation arch := (arch K I).
+  Notation ins := (arch_insert key worse).
+  Notation mirror := (mirror K I key).
+  Notation ksorted := (ksorted K I better).
+  Notation kuniv := (kuniv K I UK).
+  Notation step := (hof_step key worse better similar k).
+  Notation better_asym := (better_asym K better UK better_irrefl better_trans).
+
+  (* the loop body with p0 = ind *)
+  Definition step1 (a : arch) (ind : I) : arch := step ind a ind.
+
+  (* what one iteration does *)
+  Inductive step_out (a : arch) (ind : I) : arch -> Prop :=
+  | so_similar m : In m (items a) -> uidf m = uidf ind -> step_out a ind a
+  | so_not_better front w : items a = front ++ [w] -> k <= size a ->
+      better (key ind) (key w) = false -> step_out a ind a
+  | so_insert : size a < k -> (forall m, In m (items a) -> uidf m <> uidf ind) ->
+      step_out a ind (ins a ind)
+  | so_replace front w : items a = front ++ [w] -> k <= size a ->
+      better (key ind) (key w) = true -> (forall m, In m (items a) -> uidf m <> uidf ind) ->
+      step_out a ind (ins (remove_nat K I a (size a - 1)) ind).
+
+  Lemma existsb_similar ind l :
+    existsb (similar ind) l = false -> forall m, In m l -> uidf m <> uidf ind.
+  Proof.
+    intros H m Hm E. assert (existsb (similar ind) l = true); [|congruence].
+    apply existsb_exists. exists m. split; [exact Hm|]. unfold similar. rewrite E. apply Nat.eqb_refl.
+  Qed.
+
+  Lemma step1_out a ind : step_out a ind (step1 a ind).
+  Proof.
+    unfold step1, hof_step.
+    assert (Hk : (k =? 0) = false) by (apply Nat.eqb_neq; lia). rewrite Hk. simpl negb. rewrite andb_true_r.
+    destruct (size a =? 0) eqn:Z.
+    - apply Nat.eqb_eq in Z. apply so_insert; [lia|].
+      unfold size in Z. apply length_zero_iff_nil in Z. rewrite Z. intros m [].
+    - apply Nat.eqb_neq in Z. destruct (last_opt (items a)) as [w|] eqn:L.
+      + destruct (last_opt_split _ _ L) as (front & E).
+        destruct (better (key ind) (key w)) eqn:B; simpl.
+        * destruct (existsb (similar ind) (items a)) eqn:X.
+          -- apply existsb_exists in X. destruct X as (m & Hm & S).
+             apply Nat.eqb_eq in S. apply (so_similar a ind m Hm). symmetry. exact S.
+          -- pose proof (existsb_similar _ _ X) as N. destruct (k <=? size a) eqn:C.
+             ++ apply Nat.leb_le in C. rewrite arch_remove_last by lia.
+                apply (so_replace a ind front w); assumption.
+             ++ apply Nat.leb_gt in C. apply so_insert; assumption.
+        * destruct (size a <? k) eqn:C.
+          -- apply Nat.ltb_lt in C. destruct (existsb (similar ind) (items a)) eqn:X.
+             ++ apply existsb_exists in X. destruct X as (m & Hm & S).
+                apply Nat.eqb_eq in S. apply (so_similar a ind m Hm). symmetry. exact S.
+             ++ pose proof (existsb_similar _ _ X) as N.
+                assert (C' : (k <=? size a) = false) by (apply Nat.leb_gt; exact C). rewrite C'.
+                apply so_insert; assumption.
+          -- apply Nat.ltb_ge in C. apply (so_not_better a ind front w); assumption.
+      + apply last_opt_none in L. unfold size in Z. rewrite L in Z. simpl in Z. lia.
+  Qed.
+
+  Lemma step_out_size a ind a' : step_out a ind a' -> 0 < size a' \/ a' = a /\ 0 < size a.
+  Proof.
+    intros [m Hm _|front w E _ _| |front w E _ _ _].
+    - right. split; [reflexivity|]. unfold size. destruct (items a); [destruct Hm|simpl; lia].
+    - right. split; [reflexivity|]. unfold size. rewrite E, app_length. simpl. lia.
+    - left. rewrite arch_insert_size. lia.
+    - left. rewrite arch_insert_size. lia.
+  Qed.
+
+  Lemma step1_nonempty a ind : 0 < size (step1 a ind).
+  Proof. destruct (step_out_size _ _ _ (step1_out a ind)) as [H|[-> H]]; exact H. Qed.
+
+  (* population[0] matters only for an empty hall of fame, i.e. for the first individual *)
+  Lemma step_p0 p0 a ind : 0 < size a -> step p0 a ind = step1 a ind.
+  Proof.
+    intros H. unfold step1, hof_step.
+    assert (E : (size a =? 0) = false) by (apply Nat.eqb_neq; lia). rewrite E. reflexivity.
+  Qed.
+
+  Lemma fold_step_p0 p0 l a : 0 < size a -> fold_left (step p0) l a = fold_left step1 l a.
+  Proof.
+    revert a. induction l as [|x l IH]; intros a H; simpl; [reflexivity|].
+    rewrite step_p0 by exact H. apply IH, step1_nonempty.
+  Qed.
+
+  Lemma hof_update_fold a pop :
+    hof_update key worse better similar k a pop = fold_left step1 pop a.
+  Proof.
+    destruct pop as [|p0 l]; [reflexivity|]. simpl.
+    change (step p0 a p0) with (step1 a p0). apply fold_step_p0, step1_nonempty.
+  Qed.
+
+  Lemma hof_run_fold a pops :
+    hof_run key worse better similar k a pops = fold_left step1 (concat pops) a.
+  Proof.
+    unfold hof_run. revert a. induction pops as [|p r IH]; intros a; simpl; [reflexivity|].
+    rewrite fold_left_app, <- (hof_update_fold a p). apply IH.
+  Qed.
+
+  (* ---------- the invariant ---------- *)
+  Definition good_seen (seen : list I) : Prop :=
+    (forall s, In s seen -> UK (key s)) /\
+    (forall s t, In s seen -> In t seen -> uidf s = uidf t -> key s = key t).
+
+  Record HInv (seen : list I) (a : arch) : Prop := {
+    hi_mirror : mirror a;
+    hi_sorted : ksorted a;
+    hi_size : size a <= k;
+    hi_nodup : NoDup (map uidf (items a));
+    hi_incl : incl (items a) seen;
+    hi_cover : forall s, In s seen ->
+      (exists m, In m (items a) /\ uidf m = uidf s) \/
+      (size a = k /\ forall m, In m (items a) -> better (key s) (key m) = false) }.
+
+  Lemma inv_kuniv seen a : good_seen seen -> HInv seen a -> kuniv a.
+  Proof.
+    intros [G _] H. unfold HofProofs.kuniv. rewrite (hi_mirror _ _ H). rewrite Forall_forall. intros x Hx.
+    apply in_rev in Hx. apply in_map_iff in Hx. destruct Hx as (m & <- & Hm).
+    apply G. apply (hi_incl _ _ H), Hm.
+  Qed.
+
+  Lemma HInv_empty : HInv [] empty_arch.
+  Proof.
+    constructor; simpl.
+    - reflexivity.
+    - constructor.
+    - unfold size. simpl. lia.
+    - constructor.
+    - intros x [].
+    - intros s [].
+  Qed.
+
+  Lemma good_seen_app_l s1 s2 : good_seen (s1 ++ s2) -> good_seen s1.
+  Proof.
+    intros [G1 G2]. split.
+    - intros s Hs. apply G1. apply in_or_app. left. exact Hs.
+    - intros s t Hs Ht. apply G2; apply in_or_app; left; assumption.
+  Qed.
+
+  Lemma HInv_step seen a ind :
+    good_seen (seen ++ [ind]) -> HInv seen a -> HInv (seen ++ [ind]) (step1 a ind).
+  Proof.
+    intros G H. pose proof (inv_kuniv seen a (good_seen_app_l _ _ G) H) as KU.
+    destruct G as [GU GC].
+    assert (Uind : UK (key ind)) by (apply GU; apply in_or_app; right; left; reflexivity).
+    assert (Useen : forall s, In s seen -> UK (key s)) by (intros s Hs; apply GU; apply in_or_app; left; exact Hs).
+    assert (Uit : forall m, In m (items a) -> UK (key m)) by (intros m Hm; apply Useen, (hi_incl _ _ H), Hm).
+    destruct H as [M S Z N Inc C].
+    destruct (step1_out a ind) as [m Hm Eu|front w E Hk B|Hk Nuid|front w E Hk B Nuid].
+    - (* an individual with this uid is already archived *)
+      constructor; try assumption.
+      + apply incl_appl, Inc.
+      + intros s Hs. apply in_app_or in Hs. destruct Hs as [Hs|[<-|[]]]; [apply C, Hs|].
+        left. exists m. split; assumption.
+    - (* full and not better than the worst *)
+      constructor; try assumption.
+      + apply incl_appl, Inc.
+      + intros s Hs. apply in_app_or in Hs. destruct Hs as [Hs|[<-|[]]]; [apply C, Hs|].
+        right. split; [lia|]. intros m Hm.
+        destruct (last_is_worst K I key better a front w M S E m Hm) as [Wm| ->]; [|exact B].
+        apply (better_negtrans _ (key w)); auto. apply Uit. rewrite E. apply in_or_app. right. left. reflexivity.
+    - (* room left: insert *)
+      destruct (arch_insert_sorted K I key worse better UK worse_better better_irrefl better_trans better_negtrans a ind Uind KU S) as [S' _].
+      constructor.
+      + apply arch_insert_mirror, M.
+      + exact S'.
+      + rewrite arch_insert_size. lia.
+      + apply (Permutation_NoDup (l := map uidf (ind :: items a))).
+        * apply Permutation_map. symmetry. apply arch_insert_perm.
+        * simpl. constructor; [|exact N]. intros Hin. apply in_map_iff in Hin.
+          destruct Hin as (m & Em & Hm). apply (Nuid m Hm Em).
+      + intros x Hx. apply arch_insert_in in Hx. destruct Hx as [-> |Hx].
+        * apply in_or_app. right. left. reflexivity.
+        * apply in_or_app. left. apply Inc, Hx.
+      + intros s Hs. apply in_app_or in Hs. destruct Hs as [Hs|[<-|[]]].
+        * destruct (C s Hs) as [(m & Hm & Em)|[Hz _]]; [|lia].
+          left. exists m. split; [|exact Em]. apply arch_insert_in. right. exact Hm.
+        * left. exists ind. split; [|reflexivity]. apply arch_insert_in. left. reflexivity.
+    - (* full and strictly better than the worst: the worst leaves, the newcomer enters *)
+      set (a1 := remove_nat K I a (size a - 1)).
+      assert (Hlast : size a - 1 < size a) by lia.
+      assert (M1 : mirror a1) by (apply remove_nat_mirror; assumption).
+      destruct (remove_nat_sorted K I better UK a (size a - 1) S KU) as [S1 KU1]. fold a1 in S1, KU1.
+      assert (I1 : items a1 = front) by (apply (remove_last_items K I a front w E)).
+      assert (Z1 : size a1 = size a - 1) by (apply remove_nat_size; exact Hlast).
+      destruct (arch_insert_sorted K I key worse better UK worse_better better_irrefl better_trans better_negtrans a1 ind Uind KU1 S1) as [S' _].
+      assert (Hw : In w (items a)) by (rewrite E; apply in_or_app; right; left; reflexivity).
+      assert (Hfront : forall m, In m front -> In m (items a)) by (intros m Hm; rewrite E; apply in_or_app; left; exact Hm).
+      assert (Bw : better (key w) (key ind) = false) by (apply better_asym; auto).
+      constructor.
+      + apply arch_insert_mirror, M1.
+      + exact S'.
+      + rewrite arch_insert_size. lia.
+      + apply (Permutation_NoDup (l := map uidf (ind :: front))).
+        * apply Permutation_map. symmetry. rewrite <- I1. apply arch_insert_perm.
+        * rewrite E, map_app in N. simpl in N.
+          apply (Permutation_NoDup (Permutation_app_comm _ _)) in N. simpl in N.
+          inversion N as [|? ? _ N']; subst.
+          simpl. constructor; [|exact N']. intros Hin. apply in_map_iff in Hin.
+          destruct Hin as (m & Em & Hm). apply (Nuid m (Hfront m Hm) Em).
+      + intros x Hx. apply arch_insert_in in Hx. destruct Hx as [-> |Hx].
+        * apply in_or_app. right. left. reflexivity.
+        * apply in_or_app. left. apply Inc, Hfront. rewrite <- I1. exact Hx.
+      + assert (Full : size (ins a1 ind) = k) by (rewrite arch_insert_size; lia).
+        assert (Wworst : forall m', In m' (items (ins a1 ind)) -> better (key w) (key m') = false).
+        { intros m' Hm'. apply arch_insert_in in Hm'. destruct Hm' as [-> |Hm']; [exact Bw|].
+          rewrite I1 in Hm'. destruct (last_is_worst K I key better a front w M S E m' (Hfront m' Hm')) as [W| ->]; [exact W|].
+          apply better_irrefl. auto. }
+        intros s Hs. apply in_app_or in Hs. destruct Hs as [Hs|[<-|[]]].
+        * destruct (C s Hs) as [(m & Hm & Em)|[_ Hall]].
+          -- rewrite E in Hm. apply in_app_or in Hm. destruct Hm as [Hm|[<-|[]]].
+             ++ left. exists m. split; [|exact Em]. apply arch_insert_in. right. rewrite I1. exact Hm.
+             ++ right. split; [exact Full|].
+                assert (Ek : key s = key w).
+                { symmetry. apply GC; [apply in_or_app; left; apply Inc, Hw|apply in_or_app; left; exact Hs|exact Em]. }
+                rewrite Ek. exact Wworst.
+          -- right. split; [exact Full|]. intros m' Hm'.
+             apply arch_insert_in in Hm'. destruct Hm' as [-> |Hm'].
+             ++ apply (better_negtrans _ (key w)); auto.
+             ++ apply Hall, Hfront. rewrite <- I1. exact Hm'.
+        * left. exists ind. split; [|reflexivity]. apply arch_insert_in. left. reflexivity.
+  Qed.
+
+  (* over any stream of individuals *)
+  Lemma HInv_fold inds : forall seen a,
+    good_seen (seen ++ inds) -> HInv seen a -> HInv (seen ++ inds) (fold_left step1 inds a).
+  Proof.
+    induction inds as [|x r IH]; intros seen a G H; simpl.
+    - rewrite app_nil_r. exact H.
+    - replace (seen ++ x :: r) with ((seen ++ [x]) ++ r) in * by (rewrite <- app_assoc; reflexivity).
+      apply IH; [exact G|]. apply HInv_step; [|exact H]. apply (good_seen_app_l _ r), G.
+  Qed.
+
+  Theorem hof_inv_run pops :
+    good_seen (concat pops) ->
+    HInv (concat pops) (hof_run key worse better similar k empty_arch pops).
+  Proof.
+    intros G. rewrite hof_run_fold. apply (HInv_fold (concat pops) [] empty_arch G HInv_empty).
+  Qed.
+
+  (* ---------- consequences: how many, which ---------- *)
+  Lemma HInv_count seen a :
+    HInv seen a -> size a = Nat.min k (length (nodup Nat.eq_dec (map uidf seen))).
+  Proof.
+    intros [M S Z N Inc C]. set (d := nodup Nat.eq_dec (map uidf seen)).
+    assert (Le : size a <= length d).
+    { unfold size. rewrite <- (map_length uidf). apply NoDup_incl_length; [exact N|].
+      intros u Hu. apply nodup_In. apply in_map_iff in Hu. destruct Hu as (m & <- & Hm).
+      apply in_map, Inc, Hm. }
+    destruct (Nat.eq_dec (size a) k) as [E|Ne]; [lia|].
+    assert (Ge : length d <= size a).
+    { unfold size. rewrite <- (map_length uidf). apply NoDup_incl_length; [apply NoDup_nodup|].
+      intros u Hu. apply nodup_In in Hu. apply in_map_iff in Hu. destruct Hu as (s & <- & Hs).
+      destruct (C s Hs) as [(m & Hm & Em)|[Hk _]]; [|lia]. rewrite <- Em. apply in_map, Hm. }
+    lia.
+  Qed.
+
+  (* one iteration never loses ground: every old member is matched by a new member that is at
+     least as good *)
+  Lemma step1_no_loss seen a ind :
+    good_seen (seen ++ [ind]) -> HInv seen a ->
+    forall m, In m (items a) -> exists m', In m' (items (step1 a ind)) /\ better (key m) (key m') = false.
+  Proof.
+    intros G H m Hm. destruct G as [GU _].
+    assert (Uind : UK (key ind)) by (apply GU; apply in_or_app; right; left; reflexivity).
+    assert (Uit : forall x, In x (items a) -> UK (key x)).
+    { intros x Hx. apply GU. apply in_or_app. left. apply (hi_incl _ _ H), Hx. }
+    destruct (step1_out a ind) as [m0 _ _|front w _ _ _|_ _|front w E Hk B Nuid].
+    - exists m. split; [exact Hm|]. apply better_irrefl. auto.
+    - exists m. split; [exact Hm|]. apply better_irrefl. auto.
+    - exists m. split; [apply arch_insert_in; right; exact Hm|]. apply better_irrefl. auto.
+    - rewrite E in Hm. apply in_app_or in Hm. destruct Hm as [Hm|[<-|[]]].
+      + exists m. split.
+        * apply arch_insert_in. right. rewrite (remove_last_items K I a front w E). exact Hm.
+        * apply better_irrefl. apply Uit. rewrite E. apply in_or_app. left. exact Hm.
+      + exists ind. split; [apply arch_insert_in; left; reflexivity|].
+        apply better_asym; auto. apply Uit. rewrite E. apply in_or_app. right. left. reflexivity.
+  Qed.
+
+  Lemma fold_no_loss inds : forall seen a,
+    good_seen (seen ++ inds) -> HInv seen a ->
+    forall m, In m (items a) ->
+    exists m', In m' (items (fold_left step1 inds a)) /\ better (key m) (key m') = false.
+  Proof.
+    induction inds as [|x r IH]; intros seen a G H m Hm; simpl.
+    - exists m. split; [exact Hm|]. apply better_irrefl. apply (proj1 G). apply in_or_app. left.
+      apply (hi_incl _ _ H), Hm.
+    - replace (seen ++ x :: r) with ((seen ++ [x]) ++ r) in G by (rewrite <- app_assoc; reflexivity).
+      pose proof (good_seen_app_l _ _ G) as G1.
+      destruct (step1_no_loss seen a x G1 H m Hm) as (m1 & Hm1 & B1).
+      pose proof (HInv_step seen a x G1 H) as H1.
+      destruct (IH _ _ G H1 m1 Hm1) as (m2 & Hm2 & B2).
+      exists m2. split; [exact Hm2|].
+      pose proof (HInv_fold r _ _ G H1) as H2.
+      destruct G as [GU _].
+      apply (better_negtrans _ (key m1)); auto.
+      + apply GU. apply in_or_app. left. apply in_or_app. left. apply (hi_incl _ _ H), Hm.
+      + apply GU. apply in_or_app. left. apply (hi_incl _ _ H1), Hm1.
+      + apply GU. apply (hi_incl _ _ H2), Hm2.
+  Qed.
+
+  (* the head of a mirrored sorted archive is at least as good as every member *)
+  Lemma head_is_best seen a h rest :
+    good_seen seen -> HInv seen a -> items a = h :: rest ->
+    forall m, In m (items a) -> better (key m) (key h) = false.
+  Proof.
+    intros [GU _] H E m Hm.
+    pose proof (items_sorted K I key better a (hi_mirror _ _ H) (hi_sorted _ _ H)) as S.
+    rewrite E in S, Hm. inversion S as [|? ? _ F]; subst. destruct Hm as [<-|Hm].
+    - apply better_irrefl. apply GU, (hi_incl _ _ H). rewrite E. left. reflexivity.
+    - rewrite Forall_forall in F. apply F, Hm.
+  Qed.
+
+  (* best never worse, over one whole update *)
+  Theorem best_never_worse_update seen a pop h rest :
+    good_seen (seen ++ pop) -> HInv seen a -> items a = h :: rest ->
+    exists h' rest', items (hof_update key worse better similar k a pop) = h' :: rest' /\
+                     better (key h) (key h') = false.
+  Proof.
+    intros G H E. rewrite hof_update_fold.
+    assert (Hh : In h (items a)) by (rewrite E; left; reflexivity).
+    destruct (fold_no_loss pop seen a G H h Hh) as (m' & Hm' & B).
+    pose proof (HInv_fold pop seen a G H) as H'.
+    destruct (items (fold_left step1 pop a)) as [|h' rest'] eqn:E'; [destruct Hm'|].
+    exists h', rest'. split; [reflexivity|].
+    pose proof (head_is_best _ _ h' rest' G H' E' m') as Bh. rewrite E' in Bh. specialize (Bh Hm').
+    destruct G as [GU _].
+    apply (better_negtrans _ (key m')); auto.
+    - apply GU. apply in_or_app. left. apply (hi_incl _ _ H), Hh.
+    - apply GU, (hi_incl _ _ H'). rewrite E'. exact Hm'.
+    - apply GU, (hi_incl _ _ H'). rewrite E'. left. reflexivity.
+  Qed.
+End HofInvariant.
+
+(* ====================== the hall of fame of individuals ====================== *)
+(* one fitness per uid: an Individual's fitness is set once *)
+Definition uid_consistent (seen : list indiv) : Prop :=
+  forall s t, In s seen -> In t seen -> uid s = uid t -> fitness s = fitness t.
+
+(* the hypotheses of C08 on what is shown to the archive: valid fitness values of one class,
+   pairwise identical or clearly separated (as in C09), one fitness per uid *)
+Definition shown_ok (seen : list indiv) : Prop := SepU (map fitness seen) /\ uid_consistent seen.
+
+Section HofConcrete.
+  Variable k : nat.
+  Hypothesis kpos : 1 <= k.
+  Variable seen_all : list indiv.          (* everything ever shown, fixes the universe *)
+  Hypothesis HS : SepU (map fitness seen_all).
+
+  Let U := inU (map fitness seen_all).
+
+  Let wb := u_worse _ HS.
+  Let bi := u_better_irrefl _ HS.
+  Let bt := u_better_trans _ HS.
+  Let bn := u_better_negtrans _ HS.
+
+  Lemma good_seen_of seen :
+    incl seen seen_all -> uid_consistent seen -> good_seen fit indiv fitness uid U seen.
+  Proof.
+    intros Inc C. split.
+    - intros s Hs. apply in_map, Inc, Hs.
+    - exact C.
+  Qed.
+
+  Lemma sim_uid_similar : sim_uid = similar indiv uid.
+  Proof. reflexivity. Qed.
+
+  Lemma hof_HInv pops :
+    incl (concat pops) seen_all -> uid_consistent (concat pops) ->
+    HInv fit indiv fitness f_better uid k (concat pops) (hof_runs k empty_arch pops).
+  Proof.
+    intros Inc C. unfold hof_runs. rewrite sim_uid_similar.
+    apply (hof_inv_run fit indiv fitness f_worse f_better uid U wb bi bt bn k kpos).
+    apply good_seen_of; assumption.
+  Qed.
+
+  Lemma hof_best_update pops pop h rest :
+    incl (concat pops ++ pop) seen_all -> uid_consistent (concat pops ++ pop) ->
+    items (hof_runs k empty_arch pops) = h :: rest ->
+    exists h' rest', items (hof_upd k (hof_runs k empty_arch pops) pop) = h' :: rest' /\
+                     f_better (fitness h) (fitness h') = false.
+  Proof.
+    intros Inc C E. unfold hof_upd. rewrite sim_uid_similar.
+    apply (best_never_worse_update fit indiv fitness f_worse f_better uid U wb bi bt bn k kpos (concat pops) _ pop h rest).
+    - apply good_seen_of; assumption.
+    - apply hof_HInv.
+      + intros x Hx. apply Inc. apply in_or_app. left. exact Hx.
+      + intros s t Hs Ht. apply C; apply in_or_app; left; assumption.
+    - exact E.
+  Qed.
+End HofConcrete.
+
+Lemma shown_ok_prefix (l1 l2 : list indiv) : shown_ok (l1 ++ l2) -> shown_ok l1.
+Proof.
+  intros [S C]. split.
+  - intros f g Hf Hg. apply S; rewrite map_app; apply in_or_app; left; assumption.
+  - intros s t Hs Ht. apply C; apply in_or_app; left; assumption.
+Qed.
+
+(* (1) the representation invariant, after any sequence of updates *)
+Theorem hof_inv k pops :
+  1 <= k -> shown_ok (concat pops) ->
+  let a := hof_runs k empty_arch pops in
+  length (keys a) = length (items a) /\
+  keys a = rev (map fitness (items a)) /\
+  StronglySorted (fun x y => f_better x y = false) (keys a) /\
+  length (items a) <= k /\
+  NoDup (map uid (items a)).
+Proof.
+  intros kpos [S C] a.
+  pose proof (hof_HInv k kpos (concat pops) S pops (incl_refl _) C) as H. fold a in H.
+  destruct H as [M So Z N _ _]. repeat split; try assumption.
+  apply (mirror_length _ _ _ _ M).
+Qed.
+
+(* (2) exactly the k best distinct individuals seen, best first *)
+Theorem hof_k_best k pops :
+  1 <= k -> shown_ok (concat pops) ->
+  let seen := concat pops in
+  let a := hof_runs k empty_arch pops in
+  incl (items a) seen /\
+  length (items a) = Nat.min k (length (nodup Nat.eq_dec (map uid seen))) /\
+  StronglySorted (fun x y => f_better (fitness y) (fitness x) = false) (items a) /\
+  (forall s, In s seen -> (forall m, In m (items a) -> uid m <> uid s) ->
+             forall m, In m (items a) -> f_better (fitness s) (fitness m) = false).
+Proof.
+  intros kpos [S C] seen a.
+  pose proof (hof_HInv k kpos (concat pops) S pops (incl_refl _) C) as H. fold a seen in H.
+  pose proof H as Cnt. apply HInv_count in Cnt; [|exact kpos].
+  destruct H as [M So Z N Inc Cov].
+  repeat split.
+  - exact Inc.
+  - exact Cnt.
+  - apply items_sorted; assumption.
+  - intros s Hs Hn m Hm. destruct (Cov s Hs) as [(m0 & Hm0 & E)|[_ Hall]].
+    + exfalso. apply (Hn m0 Hm0 E).
+    + apply Hall, Hm.
+Qed.
+
+(* (3) the best archived fitness never gets worse from one update to the next *)
+Theorem hof_best_never_worse k pops pop h rest :
+  1 <= k -> shown_ok (concat (pops ++ [pop])) ->
+  items (hof_runs k empty_arch pops) = h :: rest ->
+  exists h' rest', items (hof_runs k empty_arch (pops ++ [pop])) = h' :: rest' /\
+                   f_better (fitness h) (fitness h') = false.
+Proof.
+  intros kpos [S C] E. rewrite concat_app in S, C. simpl in S, C. rewrite app_nil_r in S, C.
+  unfold hof_runs, hof_run. rewrite fold_left_app. simpl.
+  apply (hof_best_update k kpos (concat pops ++ pop) S pops pop h rest (incl_refl _) C E).
+Qed.
+
+(* on the universe shown, better-than is lexicographic minimisation of the value vectors *)
+Theorem better_is_lex seen s t :
+  shown_ok seen -> In s seen -> In t seen ->
+  f_better (fitness s) (fitness t) = lex_lt_b (vals (fitness s)) (vals (fitness t)).
+Proof. intros [S _] Hs Ht. apply (u_better _ S); apply in_map; assumption. Qed.
